@@ -67,6 +67,9 @@ CHECK_DEADLOCK FALSE
         raise tlc.MachineryError(f"closure of {which}: emitted {len(cs)} states, TLC found {r.distinct}")
     states = [[x["c"] for x in c["hist"]] for c in cs]
     trans = [[x["c"] for x in c["hist"]] + [call] for c in cs for call in c["calls"]]
+    if which != "arch":
+        # ... and the same transitions taken by an object that has been EVALUATED in the state before the call
+        trans += [[x["c"] for x in c["hist"]] + [{"m": "assert_applies"}, call] for c in cs if c["hist"] for call in c["calls"]]
     return states, trans, r
 
 
